@@ -81,10 +81,19 @@ type execState struct {
 }
 
 type opResult struct {
-	obs     []Obs
-	visits  []verifsim.Visit
-	skipped bool
+	obs        []Obs
+	visits     []verifsim.Visit
+	skipped    bool
+	overBudget bool
 }
+
+// opYieldBudget: yield points one operation may pass. Measured: LoadSchema of
+// the largest generated schema about 0.2 M, any validation below 0.1 M.
+const opYieldBudget = 6_000_000
+
+var opsOverBudget int
+
+const overBudgetMark = "over-yield-budget (no result; termination is not this check's subject)"
 
 func ruleIDs(names []string) []int32 {
 	var out []int32
@@ -147,6 +156,16 @@ func (x *execState) runOp(i int, capture bool) (res opResult) {
 	}
 	verifsim.BeginOp(x.orderCfg(i, capture))
 	defer func() { res.visits = verifsim.EndOp() }()
+	verifsim.ArmOpBudget(opYieldBudget)
+	defer func() {
+		if verifsim.DisarmOpBudget() {
+			// the operation passed more yield points than any terminating one
+			// does: no result (termination is C02's subject). Nothing is compared.
+			res.obs = nil
+			res.overBudget = true
+			opsOverBudget++
+		}
+	}()
 	pan := protect(func() {
 		switch op.Kind {
 		case "load":
@@ -204,9 +223,10 @@ func protect(f func()) (p string) {
 }
 
 type sessionRun struct {
-	obs      []Obs
-	visits   [][]verifsim.Visit // per op
-	executed int
+	obs        []Obs
+	visits     [][]verifsim.Visit // per op
+	executed   int
+	overBudget int
 }
 
 func runSession(s *Session, capture bool) sessionRun {
@@ -217,6 +237,9 @@ func runSession(s *Session, capture bool) sessionRun {
 		res := x.runOp(i, capture)
 		if !res.skipped {
 			r.executed++
+		}
+		if res.overBudget {
+			r.overBudget++
 		}
 		r.obs = append(r.obs, res.obs...)
 		r.visits[i] = res.visits
@@ -493,6 +516,9 @@ type c10Stats struct {
 	Samples           []*Session        `json:"samples,omitempty"`
 	CanonDigest       map[string]uint64 `json:"canon_digest,omitempty"`
 	Log               []string          `json:"log,omitempty"`
+	// sessions in which an operation was cut off at the yield budget (the
+	// uninstrumented children skip them: they have no yield points to count)
+	OverBudgetSessions []uint64 `json:"over_budget_sessions,omitempty"`
 
 	unknownViolations int
 }
@@ -547,6 +573,7 @@ func c10Main(args []string) {
 	fs.Parse(args)
 	var isoKeys []isoKey
 	isoSeen := map[uint64]bool{}
+	var overSessions []uint64
 	knownSet := map[string]bool{}
 	for _, k := range strings.Split(*known, ";;") {
 		if k != "" {
@@ -586,6 +613,9 @@ func c10Main(args []string) {
 		sseed := gen.Mix(wseed, uint64(n))
 		src := srcs[n%len(srcs)]
 		s := genSession(sseed, src)
+		if os.Getenv("VERIF_TRACE") != "" {
+			fmt.Fprintf(os.Stderr, "session %d seed %d %s\n", n, sseed, src)
+		}
 		if *canonical {
 			s.Weights = [5]uint8{}
 			s.Mix = "canonical"
@@ -595,6 +625,9 @@ func c10Main(args []string) {
 		}
 		st.LastSessionSeed = sseed
 		r := runSession(s, false)
+		if r.overBudget > 0 {
+			overSessions = append(overSessions, sseed)
+		}
 		st.Sessions++
 		st.SessionsBySource[src]++
 		st.SessionsByMix[s.Mix]++
@@ -744,6 +777,8 @@ func c10Main(args []string) {
 	}
 	sort.Slice(st.EffectiveHashes, func(i, j int) bool { return st.EffectiveHashes[i] < st.EffectiveHashes[j] })
 	st.Probes["panics_recovered"] = panicsSeen
+	st.Probes["operations_cut_off_at_yield_budget"] = opsOverBudget
+	st.OverBudgetSessions = overSessions
 	st.WallS = time.Since(t0).Seconds()
 	if *isoOut != "" {
 		writeJSON(*isoOut, isoKeys)
@@ -786,6 +821,12 @@ type isoResult struct {
 
 // evalIsolated computes the result for a key in this process, now.
 func evalIsolated(k *isoKey) (res isoResult) {
+	verifsim.ArmOpBudget(4 * opYieldBudget)
+	defer func() {
+		if verifsim.DisarmOpBudget() {
+			res = isoResult{A: overBudgetMark, B: overBudgetMark}
+		}
+	}()
 	p := protect(func() {
 		sc, err := gqlparser.LoadSchema(&ast.Source{Name: k.SchemaName, Input: k.Schema})
 		if k.Kind == "L" {
@@ -862,6 +903,9 @@ func c10IsolatedMain(args []string) {
 			fatal(2, "c10-isolated: child output unreadable for key %s", k.TK)
 		}
 		for _, alone := range []string{ir.A, ir.B} {
+			if alone == overBudgetMark {
+				break
+			}
 			if hashStr(alone) != k.Hash {
 				x, y := firstDiffLine(k.Rendering, alone)
 				rule := ruleOfLine(x)
@@ -1259,8 +1303,18 @@ func c10DigestMain(args []string) {
 	reps := fs.Int("reps", 1, "in-process repetitions of each session")
 	sources := fs.String("sources", "corpus,gen", "workload sources")
 	out := fs.String("out", "-", "result file")
+	skipFile := fs.String("skip-sessions", "", "JSON list of session seeds to skip (operations that exceed the yield budget on the instrumented build)")
 	fs.Parse(args)
 	srcs := strings.Split(*sources, ",")
+	skip := map[uint64]bool{}
+	if *skipFile != "" {
+		var l []uint64
+		readJSON(*skipFile, &l)
+		for _, x := range l {
+			skip[x] = true
+		}
+	}
+	hung := false
 	type entry struct {
 		Hashes     []uint64 `json:"hashes"`
 		Renderings []string `json:"renderings,omitempty"`
@@ -1273,10 +1327,24 @@ func c10DigestMain(args []string) {
 	for i := 0; i < *n; i++ {
 		sseed := gen.Mix(wseed, uint64(i))
 		src := srcs[i%len(srcs)]
-		for rep := 0; rep < *reps; rep++ {
+		if skip[sseed] || hung {
+			continue
+		}
+		for rep := 0; rep < *reps && !hung; rep++ {
 			s := genSession(sseed, src)
 			s.Weights = [5]uint8{}
-			r := runSession(s, false)
+			// this build has no yield points to count: a wall-clock backstop. The
+			// goroutine of a call that does not return cannot be stopped; the
+			// child then finishes early with what it has.
+			done := make(chan sessionRun, 1)
+			go func() { done <- runSession(s, false) }()
+			var r sessionRun
+			select {
+			case r = <-done:
+			case <-time.After(30 * time.Second):
+				hung = true
+				continue
+			}
 			for _, o := range r.obs {
 				var si, di int
 				var tk string
@@ -1318,7 +1386,10 @@ func c10DigestMain(args []string) {
 			}
 		}
 	}
-	writeJSON(*out, map[string]interface{}{"instrumented": instrumented(), "entries": res})
+	writeJSON(*out, map[string]interface{}{"instrumented": instrumented(), "entries": res, "hung": hung})
+	if hung {
+		os.Exit(0) // a goroutine is still spinning inside the library
+	}
 }
 
 // c10ConfirmMain: on an UNINSTRUMENTED build, run the replay's operations many
